@@ -154,9 +154,19 @@ def side_conditions(s):
     return res
 
 
+EXTRA_PROPERTY_FILES = ['theories/Properties/Composition.v']
+EXTRA_THEOREMS = {'theories/Properties/Composition.v': ['Compose_C04_translations_agree', 'Compose_C04_lookup_sound_on', 'Compose_C04_manifest_key_is_C02_pp_key', 'Compose_C04_hreq_view_faithful', 'Compose_C04_pp_key_injective_at', 'Compose_C04_mode_equivalence_closed', 'Compose_C09_consistent_from_C02', 'Compose_C09_faults_transparent_closed', 'Compose_C09_history_transparent_closed', 'Compose_C09_repopulates_closed', 'Compose_C03_allowlist_is_C02', 'Compose_C03_key_of_is_C02_key', 'Compose_C03_hit_after_store_C02_key', 'Compose_store_invariants']}
+
+
 def translate(rep):
     global SPEC
     SPEC = None
+    # Composition.v also depends on C04's generated constants: regenerate them from the same tree
+    try:
+        from translator import c04_consts
+        c04_consts.generate(pipeline.REPO, os.path.join(pipeline.COQ, 'theories/Gen/C04Consts.v'))
+    except Exception as e:
+        rep.notes.append('C04 constants translator (needed by Composition.v) raised: %r' % (e,))
     last = spec_from_json(json.load(open(SPEC_JSON))) if os.path.exists(SPEC_JSON) else None
     if last:
         last['tags'] = [tuple(t) if not isinstance(t[0], bytes) else (t[0].decode(), t[1]) for t in last['tags']]
